@@ -32,12 +32,19 @@ func getField(v Struct, t types.Type, name string) *Value {
 
 type zipEntry struct {
 	name Str
+	kind int // 0 intact, 1 data breaks off, 2 wrong checksum
 }
 
 func init() {
 	rt := rtPkgPath + "."
 	reg(rt+"ZipEntry", func(fr *frame, args []Value) Value {
-		fr.e.zipList = append(fr.e.zipList, zipEntry{args[0].(Str)})
+		fr.e.zipList = append(fr.e.zipList, zipEntry{args[0].(Str), 0})
+		return nil
+	})
+	reg(rt+"ZipEntryDamaged", func(fr *frame, args []Value) Value {
+		e := fr.e
+		kind := int(e.concretize(args[1].(*Term), "zip entry damage kind"))
+		e.zipList = append(e.zipList, zipEntry{args[0].(Str), kind})
 		return nil
 	})
 	reg(rt+"ZipMaterialize", func(fr *frame, args []Value) Value { return nil })
@@ -79,7 +86,20 @@ func init() {
 		if t == nil {
 			unsupported("rt.NopReader missing")
 		}
-		var cell Value = e.zero(t)
+		rd := e.zero(t).(Struct)
+		// the entry's registered damage kind
+		f := (*fr.derefArg(args[0], "zip.File.Open")).(Struct)
+		fT := e.namedType("archive/zip", "File")
+		hT := e.namedType("archive/zip", "FileHeader")
+		h := (*getField(f, fT, "FileHeader")).(Struct)
+		if name, ok := concStr((*getField(h, hT, "Name")).(Str)); ok {
+			for _, ze := range e.zipList {
+				if zn, ok := concStr(ze.name); ok && zn == name {
+					setField(rd, t, "Kind", e.tt.BV(64, uint64(ze.kind)))
+				}
+			}
+		}
+		var cell Value = rd
 		return Tuple{Iface{t: types.NewPointer(t), v: &cell}, Iface{}}
 	})
 	for _, m := range []string{"FindString", "MatchString", "Match", "FindStringSubmatch", "ReplaceAllString", "FindAllString", "FindStringIndex", "ReplaceAllStringFunc", "FindAllStringSubmatch", "Split"} {
